@@ -282,7 +282,25 @@ def stepClauses (op : String) (_j : Json) (pre post : Core) (msgs : List Json) :
           if a.state != "Accepted" && a.state != "New" then none else
           pre.queues.findSome? (fun q =>
             if under a.queue q.path && q.maxApps != 0 && !q.allocating.contains app && q.running + q.allocating.length + 1 > q.maxApps
-            then some s!"C11.gate {app}@{q.path}" else none))
+            then some s!"C11.gate {app}@{q.path}" else none)),
+    -- C11: the application-tag based limit (namespace.resourcemaxapps) of an accepted application is in force on its
+    -- dynamic (unmanaged) queue, whatever other tags the application carries (PartitionContext.AddApplication)
+    fun _ => if op != "app-add" then none else
+      let tagV : Nat := match _j.getObjVal? "tags" with
+        | .ok t => ((jStr (fldD t "namespace.resourcemaxapps" (.str ""))).toOption.getD "").toNat?.getD 0
+        | .error _ => 0
+      if tagV == 0 then none else
+      let id := s _j "id"
+      if (pre.findApp id).isSome then none else   -- a duplicate submission is refused
+      match post.findApp id with
+      | none => none
+      | some a =>
+        match post.findQueue a.queue with
+        | none => none
+        | some q =>
+          if q.managed || a.queue.toLower == "root.@recovery@" then none
+          else if q.maxApps == tagV then none
+          else some s!"C11.tag-limit-not-installed {id}@{q.path} tag={tagV} maxApps={q.maxApps}"
   ]
 
 def coreStep (st : CoreSt) (j : Json) : Except String (CoreSt × String) := do
@@ -404,6 +422,10 @@ def coreStep (st : CoreSt) (j : Json) : Except String (CoreSt × String) := do
   -- release: observation, not a violation) or is the real half of a swap in flight; an allocated ask that was never
   -- announced and is linked to no placeholder is lost: it is never scheduled again
   let msgT (m : Json) (k : String) := (jStr (fldD m k (.str ""))).toOption.getD ""
+  -- C04: only the confirmation of a replacement (PLACEHOLDER_REPLACED) makes the release path announce an allocation;
+  -- a plain release (by key or of everything, any other termination type) announces none
+  let fails := fails ++ (if op == "release" && relType != "PLACEHOLDER_REPLACED" then
+      msgs.filterMap (fun m => if msgT m "t" == "alloc" then some s!"C04.alloc-announced-by-plain-release {msgT m "key"}" else none) else [])
   let everBound := st.everBound ++ (msgs.filterMap (fun m => if msgT m "t" == "alloc" then some (msgT m "key") else none)) ++
       (if op == "alloc" && (jStr (fldD j "node" (.str ""))).toOption.getD "" != "" then [(jStr (fldD j "key" (.str ""))).toOption.getD ""] else [])
   let fails := fails ++ (post.liveApps.map (fun a => a.items.filterMap (fun i =>
@@ -426,7 +448,7 @@ def coreStep (st : CoreSt) (j : Json) : Except String (CoreSt × String) := do
   let fails := fails.map (fun f =>
       if (f.startsWith "C03.I7 allocation not listed by its application " || f.startsWith "C03.I7 allocation of unknown application ") && lost.contains (keyOf f) then "C03.I7r " ++ (f.drop 7).toString
       else if (f.startsWith "C03.I7 allocation not listed by its application " || f.startsWith "C03.I7 allocation of unknown application ") && lostT.contains (keyOf f) then "C03.I7o " ++ (f.drop 7).toString
-      else if f.startsWith "C04." && lost.contains (keyOf f) then
+      else if f.startsWith "C04." && !f.startsWith "C04.alloc-announced-by-plain-release" && lost.contains (keyOf f) then
         -- every protocol clause about such a key is a consequence of the same root cause
         (match f.splitOn " " with
          | tag :: rest => tag ++ "+released-inflight-replacement " ++ " ".intercalate rest
